@@ -167,7 +167,9 @@ class World:
             if ok:
                 try:
                     fresh = am.g_schema(a[0])
-                    if snapshot(fresh) != self.snaps[-1]:
+                    # (only when the DSL can write that very structure: substitution can nest a union
+                    # inside a union, which a declaration would flatten into another, equal-meaning schema)
+                    if am.a_schema(fresh) == a[0] and snapshot(fresh) != self.snaps[-1]:
                         changed.append(len(self.pool))
                 except Exception:
                     pass
